@@ -470,6 +470,7 @@ func (d *Driver) Check() int {
 	sort.Slice(sigs, func(i, j int) bool { return a.found[sigs[i]].firstIdx < a.found[sigs[j]].firstIdx })
 	exit := 0
 	nviol := 0
+	unconfirmed := 0
 	var sstats shrinkStats
 	os.MkdirAll(filepath.Join(d.Home, "replays"), 0o755)
 	var reported []map[string]any
@@ -527,10 +528,13 @@ func (d *Driver) Check() int {
 			ok, last = confirm(min)
 		}
 		if ok < 2 {
+			// not reproducible in fresh processes: never reported as a violation. If nothing else is
+			// confirmed either, the check ends without a verdict (exit status 2).
 			ub, _ := json.MarshalIndent(min, "", " ")
 			os.WriteFile(filepath.Join(d.Home, "replays", fmt.Sprintf("unreproduced-%s-%d.json", d.Prop, k)), ub, 0o644)
-			fmt.Fprintf(os.Stderr, "verif: violation %q found in run %d did not reproduce on replay (%d/2): harness trouble, no verdict\n", sig, f.firstIdx, ok)
-			return 2
+			fmt.Fprintf(os.Stderr, "verif: %q (run %d) did not reproduce on replay (%d/2); not reported\n", sig, f.firstIdx, ok)
+			unconfirmed++
+			continue
 		}
 		name := fmt.Sprintf("replays/%s-%d-%d.json", d.Prop, d.Seed, k)
 		b, _ := json.MarshalIndent(min, "", " ")
@@ -561,6 +565,10 @@ func (d *Driver) Check() int {
 		fmt.Fprintf(d.Out, "  signature: %s (seen in %d of %d runs, first in run %d)\n  %s\n", sig, f.count, done, f.firstIdx, strings.ReplaceAll(detail, "\n", "\n  "))
 	}
 
+	if unconfirmed > 0 && nviol == 0 && exit == 0 {
+		fmt.Fprintln(os.Stderr, "verif: violations were seen during exploration but none reproduced on replay: harness trouble, no verdict")
+		return 2
+	}
 	wall := time.Since(t0).Seconds()
 	d.writeEvidence(e, a, done, n, stopped, wall, exploreWall.Seconds(), nviol, detChecked, sstats, reported)
 	fmt.Fprintf(d.Out, "verif: %s %s seed=%d: %d runs, %d distinct non-trivial, %d violations, %.1fs\n", d.Prop, d.Tier, d.Seed, done, a.ntCases, nviol, wall)
@@ -671,7 +679,8 @@ func (d *Driver) determinismSample(e Engine, n, done int) (int, string) {
 			checked++
 			for k := 1; k < len(outs); k++ {
 				if outs[k] != outs[0] && bad == "" {
-					bad = fmt.Sprintf("run %d: GOMAXPROCS=1 gave (%s, %s) but another setting gave (%s, %s)", i, outs[0].h, outs[0].o, outs[k].h, outs[k].o)
+					bad = fmt.Sprintf("run %d: GOMAXPROCS=1 gave (%s, %s) but GOMAXPROCS=%d gave (%s, %s)", i, outs[0].h, outs[0].o, []int{1, 4, 16}[k], outs[k].h, outs[k].o)
+					os.WriteFile(filepath.Join(d.Home, "replays", fmt.Sprintf("nondeterministic-%s-run%d.txt", d.Prop, i)), []byte(bad), 0o644)
 				}
 			}
 			mu.Unlock()
